@@ -305,3 +305,9 @@ func Carry(tag string, v int64) int64 {
 	}
 	return v
 }
+
+// OnIdle (engine): f is called whenever the interpreted goroutine would block forever (a select
+// or receive with nothing ready and no more clock events left). It plays the other goroutines:
+// it may queue work or set flags and returns true to let the blocked operation retry (one more
+// ticker event is granted so that a loop iteration happens). Natively it is never called.
+func OnIdle(f func() bool) {}
